@@ -138,6 +138,9 @@ def c13(ctx):
     ctx.floor("PANIC(eval)", "potential panic sites in expr.rs reachable from Expr's public API", n, 2)
     ctx.floor("PANIC(eval)", "public Expr entry points", len(entries), 25)
     expr.run_c13(ctx)
+    expr.op_typed(ctx)
+    from .rules import relational
+    relational.run(ctx)
     ctx.assume(EXT_ASSUME)
     return ctx.finish(explanation="panic-edge inventory of the evaluator and the folding constructors; operator identity per match arm; "
                       "call-graph identity of folding and lazy evaluation; truthiness and short-circuit shape")
@@ -163,6 +166,7 @@ def c12(ctx):
     gates.gate_eval(ctx)
     gates.join_sib(ctx)
     gates.join_shape(ctx)
+    gates.join_more(ctx)
     inv = inventory(prog)
     ctx.rule("PANIC(select)", PANIC_TEXT)
     entries = [prog.fn("msi::internal::query::Select::exec"), prog.fn("msi::internal::package::Package::<F>::select_rows")]
@@ -234,6 +238,9 @@ def c10(ctx):
     from .rules import propset
     propset.run(ctx)
     propset.summary_ids(ctx)
+    from .rules import flush
+    flush.dirty2(ctx)
+    flush.close2(ctx)
     n = panic_module(ctx, "PANIC(summary)", ("src/internal/propset.rs", "src/internal/summary.rs"),
                      lambda f: f.file in ("src/internal/summary.rs", "src/internal/propset.rs") and f.kind != "Closure",
                      "SummaryInfo::* and PropertySet::{read,write,set,..}")
@@ -298,6 +305,7 @@ def c05(ctx):
     dml.gate2(ctx)
     validity.info_valid(ctx)
     dml.ord1(ctx)
+    dml.key_set(ctx)
     dml.del_only_retain(ctx)
     dml.pairs(ctx)
     from .rules import flush
@@ -351,6 +359,10 @@ def c03(ctx):
     eam.m_tgt(ctx)
     dml.del_only_retain(ctx)
     dml.ord1(ctx)
+    dml.key_set(ctx)
+    from .rules import flush
+    flush.dirty1(ctx)
+    flush.dirty2(ctx)
     ctx.note("NOT decided: which rows a predicate selects, the values of updated cells, equality with a relational model over histories. Only the structural necessary "
              "conditions named by the rules are decided.")
     return ctx.finish(explanation="PARTIAL: structural necessary conditions of the relational behaviour (filter polarity and scope, assignment target, projection order, exact-size iteration, "
